@@ -1277,6 +1277,172 @@ for _names in (False, True):
 
 
 # ---------------------------------------------------------------------------------------------------------------
+# reorder to a given order (C07): `_sort_to_order` against the ASSUMED caller-view contract of swap (its order effect; the observed
+# contract of swap, vlib/vc/contracts_reorder.py, is what the cross-check evaluates on real executions)
+def swap_order_effect(S0, S1, x, y):
+    return And(S1.nvars == S0.nvars, S1.l2v[x] == S0.l2v[y], S1.l2v[y] == S0.l2v[x],
+               ForAll([l_], Implies(And(l_ != x, l_ != y), S1.l2v[l_] == S0.l2v[l_]), patterns=[S1.l2v[l_]]),
+               ForAll([l_], S1.lin[l_] == S0.lin[l_], patterns=[S1.lin[l_]]), ForAll([n_], S1.vin[n_] == S0.vin[n_], patterns=[S1.vin[n_]]),
+               # the same exchange read through the inverse map (follows from the line above and W8; stated for the callers)
+               ForAll([n_], Implies(S0.vin[n_], S1.v2l[n_] == If(S0.v2l[n_] == x, y, If(S0.v2l[n_] == y, x, S0.v2l[n_]))),
+                      patterns=[S1.v2l[n_], S0.v2l[n_]]))
+
+
+reg(Contract('dd.bdd.BDD.swap', [('self', 'mgr'), ('x', 'int'), ('y', 'int'), ('all_levels', 'opaque')],
+             pre=lambda c: wf(c.S, ORD) + [('adjacent-levels', And(0 <= c.a.x, 0 <= c.a.y, c.a.x < c.S.nvars, c.a.y < c.S.nvars,
+                                                                  Or(c.a.y == c.a.x + 1, c.a.x == c.a.y + 1)))],
+             post=lambda c: wf(c.S1, ORD) + [('levels-exchanged', swap_order_effect(c.S0, c.S1, c.a.x, c.a.y)),
+                                             ('switches-kept', And(c.S1.lastlen == c.S0.lastlen, c.S1.ctx == c.S0.ctx))],
+             modifies=M.ALLF, ret='pair', uses=ORD, assumed=True,
+             note='ASSUMED caller view of swap (order effect only): its body is outside the VC generator; the observed contract '
+                  'dd.bdd.BDD.swap!observed states the same effect and is evaluated on real executions by the cross-check'))
+reg(Contract('dd.bdd.BDD._levels', [('self', 'mgr')], pre=lambda c: [], post=lambda c: [], ret='opaque', assumed=True,
+             note='assumed: returns the partition of the nodes by level (only handed on to swap)'))
+reg(Contract('dd.bdd.BDD.assert_consistent', [('self', 'mgr')], pre=lambda c: [], post=lambda c: [], ret='none', assumed=True,
+             note='assumed: debugging aid (run only at log levels below DEBUG), no effect on a well-formed manager'))
+
+
+def shift_map(a, l):
+    """level at which the variable of level l (before) sits after shifting `start` to `end`"""
+    up = And(a.start < a.end, a.start < l, l <= a.end)
+    down = And(a.end < a.start, a.end <= l, l < a.start)
+    return If(l == a.start, a.end, If(up, l - 1, If(down, l + 1, l)))
+
+
+def shift_effect(S0, S1, a, upto):
+    """after `upto` swaps the variable of level `start` has moved `upto` levels towards `end`"""
+    cur = If(a.start < a.end, a.start + upto, a.start - upto)
+    b = type(a)(start=a.start, end=cur)
+    return And(ForAll([l_], Implies(S0.lin[l_], S1.l2v[shift_map(b, l_)] == S0.l2v[l_]), patterns=[S0.l2v[l_]]),
+               ForAll([n_], Implies(S0.vin[n_], S1.v2l[n_] == shift_map(b, S0.v2l[n_])), patterns=[S1.v2l[n_], S0.v2l[n_]]))
+
+
+def shift_inv(c):
+    S, E = c.mgrs['bdd'], c.entry['bdd']
+    a = type(c)(start=c.env0['start'].z, end=c.env0['end'].z)
+    return wf(S, ORD) + [('same-variables', And(S.nvars == E.nvars, ForAll([n_], S.vin[n_] == E.vin[n_], patterns=[S.vin[n_]]),
+                                                ForAll([l_], S.lin[l_] == E.lin[l_], patterns=[S.lin[l_]]))),
+                         ('moved-so-far', shift_effect(E, S, a, c.idx)), ('switches-kept', And(S.lastlen == E.lastlen, S.ctx == E.ctx)),
+                         ('idx', c.idx >= 0)]
+
+
+reg(Contract('dd.bdd._shift', [('bdd', 'mgr'), ('start', 'int'), ('end', 'int'), ('levels', 'opaque')], mgr='bdd',
+             pre=lambda c: wf(c.S, ORD) + [('levels-in-range', And(0 <= c.a.start, c.a.start < c.S.nvars, 0 <= c.a.end, c.a.end < c.S.nvars))],
+             post=lambda c: wf(c.S1, ORD) + [
+                 ('variable-moved-others-shifted-by-one', ForAll([l_], Implies(c.S0.lin[l_], c.S1.l2v[shift_map(c.a, l_)] == c.S0.l2v[l_]),
+                                                                 patterns=[c.S0.l2v[l_]])),
+                 ('the-same-by-name', ForAll([n_], Implies(c.S0.vin[n_], c.S1.v2l[n_] == shift_map(c.a, c.S0.v2l[n_])),
+                                             patterns=[c.S1.v2l[n_], c.S0.v2l[n_]])),
+                 ('same-variables', And(c.S1.nvars == c.S0.nvars, ForAll([n_], c.S1.vin[n_] == c.S0.vin[n_], patterns=[c.S1.vin[n_]]))),
+                 ('switches-kept', And(c.S1.lastlen == c.S0.lastlen, c.S1.ctx == c.S0.ctx))],
+             modifies=M.ALLF, ret='opaque', uses=ORD, loops={0: dict(inv=shift_inv, modifies_mgr=[('bdd', M.ALLF)], modifies_dicts=['sizes'])},
+             note='rests on the ASSUMED order effect of swap'))
+
+
+def adjacent(S, x, y):
+    return Or(S.v2l[x] == S.v2l[y] + 1, S.v2l[y] == S.v2l[x] + 1)
+
+
+def pairs_pre(S, pairs):
+    n2 = M.Const('n2!pr', M.Name)
+    return [('names-declared', ForAll([n_], Implies(pairs.has[n_], And(S.vin[n_], S.vin[pairs.val[n_]])), patterns=[pairs.has[n_]])),
+            ('all-names-in-the-pairs-distinct', And(
+                ForAll([n_], Implies(pairs.has[n_], pairs.val[n_] != n_), patterns=[pairs.has[n_]]),
+                ForAll([n_, n2], Implies(And(pairs.has[n_], pairs.has[n2], n_ != n2),
+                                         And(pairs.val[n_] != pairs.val[n2], pairs.val[n_] != n2, pairs.val[n2] != n_)),
+                       patterns=[MultiPattern(pairs.has[n_], pairs.has[n2])])))]
+
+
+def rtp_inv(c):
+    S, E = c.mgrs['bdd'], c.entry['bdd']
+    pairs = c.env['pairs']
+    En = c.env['%enum:pairs']
+    return wf(S, ORD) + [('same-variables', And(S.nvars == E.nvars, ForAll([n_], S.vin[n_] == E.vin[n_], patterns=[S.vin[n_]]))),
+                         ('pairs-so-far-adjacent', ForAll([k_], Implies(And(0 <= k_, k_ < c.idx), adjacent(S, En.arr[k_], pairs.val[En.arr[k_]])),
+                                                          patterns=[En.arr[k_]])),
+                         ('switches-kept', And(S.lastlen == E.lastlen, S.ctx == E.ctx))]
+
+
+reg(Contract('dd.bdd.reorder_to_pairs', [('bdd', 'mgr'), ('pairs', 'dict:name->name')], mgr='bdd',
+             pre=lambda c: wf(c.S, ORD) + pairs_pre(c.S, c.a.pairs),
+             post=lambda c: wf(c.S1, ORD) + [
+                 ('every-requested-pair-adjacent', ForAll([n_], Implies(c.a.pairs.has[n_], adjacent(c.S1, n_, c.a.pairs.val[n_])),
+                                                         patterns=[c.a.pairs.has[n_]])),
+                 ('same-variables', And(c.S1.nvars == c.S0.nvars, ForAll([n_], c.S1.vin[n_] == c.S0.vin[n_], patterns=[c.S1.vin[n_]]))),
+                 ('switches-kept', And(c.S1.lastlen == c.S0.lastlen, c.S1.ctx == c.S0.ctx))],
+             modifies=M.ALLF, ret='none', uses=ORD, loops={0: dict(inv=rtp_inv, modifies=['m'], modifies_mgr=[('bdd', M.ALLF)])},
+             note='precondition: the names occurring in the pairs are pairwise distinct (otherwise making one pair adjacent can separate '
+                  'another); rests on _shift and thereby on the ASSUMED order effect of swap'))
+
+
+def P_of(S, order, l):
+    """target position of the variable that sits at level l"""
+    return order.val[S.l2v[l]]
+
+
+def order_valid(S, order):
+    n2 = M.Const('n2!ord', M.Name)
+    return [('order-names-are-the-variables', ForAll([n_], order.has[n_] == S.vin[n_], patterns=[order.has[n_]])),
+            ('order-length', order._len == S.nvars)]
+
+
+def dominates(S, order, j):
+    """position j holds a target at least as large as every earlier position"""
+    j2 = Int('j2!ord')
+    return ForAll([j2], Implies(And(0 <= j2, j2 < j), P_of(S, order, j2) <= P_of(S, order, j)), patterns=[S.l2v[j2]])
+
+
+def sto_common(c, S):
+    E = c.entry['bdd']
+    return wf(S, ORD) + [('same-variables', And(S.nvars == E.nvars, ForAll([n_], S.vin[n_] == E.vin[n_], patterns=[S.vin[n_]]))),
+                         ('switches-kept', And(S.lastlen == E.lastlen, S.ctx == E.ctx))]
+
+
+def sto_outer_inv(c):
+    S = c.mgrs['bdd']
+    order = c.env['order']
+    n = S.nvars
+    j = Int('j!ord')
+    return sto_common(c, S) + [('k-range', And(0 <= c.idx, Or(c.idx <= n, n == 0))),
+                               ('suffix-dominates', ForAll([j], Implies(And(n - c.idx <= j, j < n, 0 <= j), dominates(S, order, j)), patterns=[S.l2v[j]]))]
+
+
+def sto_inner_inv(c):
+    S = c.mgrs['bdd']
+    order = c.env['order']
+    n = S.nvars
+    k = c.env['k'].z
+    j = Int('j!ord')
+    i = c.idx
+    return sto_common(c, S) + [('i-range', And(0 <= i, i <= If(n >= 1, n - 1, 0))), ('k-range', And(0 <= k, k < n)),
+                               ('suffix-dominates', ForAll([j], Implies(And(n - k <= j, j < n, 0 <= j), dominates(S, order, j)), patterns=[S.l2v[j]])),
+                               ('prefix-maximum-at-i', Implies(i < n, dominates(S, order, i))),
+                               ('new-suffix-element', Implies(And(i >= n - 1 - k, n - 1 - k >= 0), dominates(S, order, n - 1 - k)))]
+
+
+def sto_post(c):
+    S0, S1, a = c.S0, c.S1, c.a
+    j, j2 = Int('j!ord'), Int('j2!ord')
+    return wf(S1, ORD) + [('levels-sorted-by-target-position', ForAll([j2, j], Implies(And(0 <= j2, j2 < j, j < S1.nvars),
+                                                                               P_of(S1, a.order, j2) <= P_of(S1, a.order, j)),
+                                                                  patterns=[MultiPattern(S1.l2v[j2], S1.l2v[j])])),
+                          ('same-variables', And(S1.nvars == S0.nvars, ForAll([n_], S1.vin[n_] == S0.vin[n_], patterns=[S1.vin[n_]]))),
+                          ('switches-kept', And(S1.lastlen == S0.lastlen, S1.ctx == S0.ctx))]
+
+
+reg(Contract('dd.bdd._sort_to_order', [('bdd', 'mgr'), ('order', 'dict:name->int')], mgr='bdd',
+             pre=lambda c: wf(c.S, ORD) + order_valid(c.S, c.a.order), post=sto_post, modifies=M.ALLF, ret='none', uses=ORD,
+             raises={'ValueError': Raise(when=lambda c: BoolVal(True), post=lambda c: wf(c.S1, ORD) + [
+                 ('same-variables', And(c.S1.nvars == c.S0.nvars, ForAll([n_], c.S1.vin[n_] == c.S0.vin[n_], patterns=[c.S1.vin[n_]])))])},
+             loops={0: dict(inv=sto_outer_inv, modifies=['m'], modifies_mgr=[('bdd', M.ALLF)]),
+                    1: dict(inv=sto_inner_inv, modifies=['m'], modifies_mgr=[('bdd', M.ALLF)]),
+                    2: dict(inv=lambda c: [])},
+             note='bubble sort over adjacent levels: afterwards the levels are sorted by the requested positions; with the requested '
+                  'positions a permutation of 0..n-1 (checked by _assert_valid_ordering in reorder()) sortedness is equality (pigeonhole: '
+                  'not derived in the SMT layer). Rests on the ASSUMED order effect of swap'))
+
+
+# ---------------------------------------------------------------------------------------------------------------
 # relational product (C13): `_image` against the ghost functions IMG / FIMG on *pairs* of references.
 # For the fixed arbitrary assignment A, with B = A o umap (term A2), IMG(u, v) is "some choice of values for the levels in Q
 # makes u (under B) and v (read through vmap) both true", FIMG the universal dual. Their recursion equations over the frozen
